@@ -382,7 +382,7 @@ def main():
 
     try:
         results = core.pmap(_exec_index, [(root, i, thorough) for i in range(nruns)], jobs=jobs, chunk=16, wall_per_chunk=180,
-                            budget_s=budget)
+                            budget_s=budget, min_items=nruns // 2, hard_budget_s=3 * budget)
     except core.WorkerDied as e:
         print('HARNESS-FAILURE %s' % e)
         return core.EXIT_HARNESS
